@@ -108,7 +108,8 @@ impl NetcodeClient {
             ClientAuthentication::Secure { connect_token } => connect_token,
         };
 
-        let server_addr = connect_token.server_addresses[0].expect("cannot create or deserialize a ConnectToken without a server address");
+        // A deserialized ConnectToken can have no address in the first slot
+        let server_addr = connect_token.server_addresses[0].ok_or(NetcodeError::NoMoreServers)?;
 
         Ok(Self {
             sequence: 0,
